@@ -6,9 +6,11 @@ PID = "C10"
 MODULES = ["Prelude", "C10_Model", "C10_Spec", "C10_Check"]
 PROPS_MODULE = "C10_Properties"
 THEOREMS = ["C10_resolves_iff", "C10_at_most_one", "C10_no_capture", "C10_deleted_stop_resolving",
-            "C10_tls_of_owner", "C10_host_normalisation", "C10_stale_names_after_failed_sync_witness"]
+            "C10_tls_of_owner", "C10_host_normalisation", "C10_request_ignores_sni",
+            "C10_stale_names_after_failed_sync_witness"]
 EVAL = "C10_Check.eval"
-CLAUSES = ["agree", "resolves_iff", "same_tenant", "no_capture", "deleted_stop", "tls_of_owner", "host_norm", "alive"]
+CLAUSES = ["agree", "resolves_iff", "same_tenant", "no_capture", "deleted_stop", "tls_of_owner", "host_norm", "alive",
+           "request_by_host"]
 RULE = ("distinct histories (op lists) in which at least two clusters are stored at some moment and at least one "
         "alias is added to, removed from or refused for a cluster (an update changes a server-name list, a delete "
         "removes a cluster with aliases, or admission refuses a colliding name)")
@@ -24,6 +26,7 @@ ASSUMPTIONS = [
     "contains the event's object (informer order)",
     "admission sees the same store as the controller (no admission race): stored objects are pairwise name-disjoint",
     "names and aliases are ASCII; IP-literal hosts are outside the property (the gateway never proxies them)",
+    "a request is addressed to its Host header; the SNI of the connection it arrives on selects TLS material only",
     "objects that validation refuses (un-creatable endpoint, unknown gate, key/cert mismatch, unparsable CA, insecure+CA) "
     "reach the controller only in the robustness stream (admission bypassed); for them only model/code agreement and "
     "the clauses that hold in every state (same_tenant, no_capture, host_norm) are judged",
@@ -92,8 +95,9 @@ def coq_steps(case, obs, share):
             if t not in share:
                 share[t] = "h%d" % len(share)
             hs.append(share[t])
-        so = ("{| t_valid := %s; t_delivered := %s; t_res := %s; t_hosts := %s |}" %
-              (cbool(s["valid"]), cbool(s["delivered"]), cZ(RESCODE.get(s["res"], 3)), clist(hs)))
+        xs = clist([cpair(cstr(x["c"]), cZ(x["code"])) for x in s.get("x", [])])
+        so = ("{| t_valid := %s; t_delivered := %s; t_res := %s; t_hosts := %s; t_x := %s |}" %
+              (cbool(s["valid"]), cbool(s["delivered"]), cZ(RESCODE.get(s["res"], 3)), clist(hs), xs))
         out.append(cpair(coq_op(p), so))
     return clist(out)
 
@@ -106,9 +110,10 @@ def coq_case(case, obs):
     share = {}   # identical host observations are bound once (let) to keep the case files small
     st = coq_steps(case, obs, share)
     if st is None:  # panic in the harness: a case that disagrees visibly
-        return "{| c_hosts := [(\"x\", \"x\")]; c_steps := [(ODelete \"x\", {| t_valid := true; t_delivered := true; t_res := 3; t_hosts := [] |})] |}"
+        return "{| c_hosts := [(\"x\", \"x\")]; c_xps := []; c_steps := [(ODelete \"x\", {| t_valid := true; t_delivered := true; t_res := 3; t_hosts := []; t_x := [] |})] |}"
     lets = "".join("let %s := %s in " % (n, t) for t, n in share.items())
-    return "(%s{| c_hosts := %s; c_steps := %s |})" % (lets, coq_hosts(case), st)
+    xps = clist([cpair(cstr(x[0]), cstr(x[1])) for x in case.get("xp", [])])
+    return "(%s{| c_hosts := %s; c_xps := %s; c_steps := %s |})" % (lets, coq_hosts(case), xps, st)
 
 
 # ----------------------------------------------------------------------------- cases
@@ -133,7 +138,9 @@ def RETRY(k):
 
 
 def mk(ops, names, views=False, clusters=()):
-    return {"hosts": [B(h) for h in c10gen.hosts_for(names)], "ops": ops, "clusters": [B(c) for c in clusters],
+    return {"hosts": [B(h) for h in c10gen.hosts_for(names)],
+            "xp": [[B(h), B(x)] for h, x in c10gen.xprobes_for(names, None, 16)],
+            "ops": ops, "clusters": [B(c) for c in clusters],
             "schemas": [B(s) for s in c10gen.SCHEMAS] + [B(b""), B(b"nosuch")], "fresh": [0, 0, 0], "views": views}
 
 
